@@ -116,6 +116,10 @@ func (s *Set) M__bool__() (Object, error) {
 }
 
 func (s *Set) M__repr__() (Object, error) {
+	if reprEnter(s) {
+		return String("set(...)"), nil
+	}
+	defer reprLeave(s)
 	var out bytes.Buffer
 	out.WriteRune('{')
 	spacer := false
